@@ -126,6 +126,7 @@ REQUIRE = {
     "arrays_with_negzero": 50,
     "noncontiguous_source_views": 100,
     "noncontiguous_target_views": 100,
+    "registered_arrays_of_the_other_precision": 50,
     "names_with_digit_suffix": 30,
     "time_nonzero": 200,
     "second_save_after_inplace_change": 20,
@@ -320,7 +321,10 @@ def _gen_fields(rng, names, vec_first=False):
     out = []
     for i, nm in enumerate(names):
         typ = "V" if (vec_first and i == 0) else ("S" if (vec_first and i == 1) else str(rng.choice(["S", "V"])))
-        out.append({"name": nm, "type": typ, "kind": str(rng.choice(KINDS)), "layout": str(rng.choice(LAYOUTS))})
+        out.append({"name": nm, "type": typ, "kind": str(rng.choice(KINDS)), "layout": str(rng.choice(LAYOUTS)),
+                    # the registered array has the OTHER precision than the IO object (a float32 simulator checkpointed through a default
+                    # float64 IO and vice versa): the registry must still reference the caller's array, datasets keep the array's dtype
+                    "other_dtype": bool(rng.random() < 0.25)})
     return out
 
 
@@ -501,6 +505,14 @@ def _build(plan, rng, fill, spu):
             B.noncontig += 1
         return v
 
+    other_t = np.float32 if real_t is np.float64 else np.float64
+
+    def fdt(f):
+        if f.get("other_dtype"):
+            B.other_dtype_fields = getattr(B, "other_dtype_fields", 0) + 1
+            return other_t
+        return real_t
+
     cls = plan["cls"]
     eul = plan["eul"]
     if cls == "EulerianFieldIO":
@@ -553,7 +565,7 @@ def _build(plan, rng, fill, spu):
         B.io.define_eulerian_grid(origin=B.origin, dx=B.dx, grid_size=B.gs)
         fields = {}
         for f in eul["fields"]:
-            fields[f["name"]] = mk(shape if f["type"] == "S" else (dim, *shape), f["kind"], f["layout"])
+            fields[f["name"]] = mk(shape if f["type"] == "S" else (dim, *shape), f["kind"], f["layout"], fdt(f))
             B.arrays[("E", f["name"])] = fields[f["name"]]
             B.meta[("E", f["name"])] = f["type"]
         # one call per field or one call for all: both are the documented usage
@@ -570,7 +582,7 @@ def _build(plan, rng, fill, spu):
         grid = mk((dim, N), g["kind"], g["layout"])
         fields = {}
         for f in g["fields"]:
-            fields[f["name"]] = mk((N,) if f["type"] == "S" else (dim, N), f["kind"], f["layout"])
+            fields[f["name"]] = mk((N,) if f["type"] == "S" else (dim, N), f["kind"], f["layout"], fdt(f))
         kw = {}
         if g["name"] is not None:
             kw["lagrangian_grid_name"] = g["name"]
@@ -761,6 +773,7 @@ def _run_case(rec, rng, spu, h5py, plan, tier, case_id):
         def roundtrip(path, expect, t_expect, tag):
             L = _build(plan, rng, False, spu)
             rec.count("noncontiguous_target_views", L.noncontig)
+            rec.count("registered_arrays_of_the_other_precision", getattr(L, "other_dtype_fields", 0))
             sent = {k: np.array(v, copy=True) for k, v in L.arrays.items()}
             try:
                 t = L.io.load(path)
